@@ -42,11 +42,15 @@ def check(ctx, tier):
     for o in ctx.obligations:
         if o.rule == "C11.a":
             o.rule = "C12.e"
+    n0 = len(ctx.obligations)
+    C11.scalar_expansion(ctx, tk)      # the report (items / to_dict) of a counter that has not counted yet
+    for o in ctx.obligations[n0:]:
+        o.rule = "C12.j"
     hazards.h1_buffered_updates(ctx, tk, "C12.c", [f])
     W.report(ctx, tk, "C12.g", [f, ctx.func("hashtable.Counter.__init__"), ctx.func("raggedshape.RaggedView._get_flat_indices_fast"),
                                 ctx.func("raggedshape.RaggedShape._broadcast_values_fast")])
     from .. import hazards as _hz, scopes as _sc
-    _hz.generic(ctx, tk, "C12.z", _sc.scope(tk, "C12"))
+    _hz.generic(ctx, tk, "C12.z", _sc.scope(tk, "C12", depth=2))
     return {}
 
 
